@@ -130,7 +130,7 @@ def gen_case(rng, tier, uhf):
         return {"uhf": False, "n": n, "occ": occ, "spin": spin, "core": core, "h": h, "eri": eri, "sym": sym,
                 "spec_py": spec_py, "spec_cq": spec_cq, "kind": kind, "elements": elements}
     na_el = rng.randint(1, n - 1) if rng.random() < 0.85 else rng.randint(0, n)
-    nb_el = rng.randint(max(0, na_el - 2), na_el)
+    nb_el = rng.randint(max(0, na_el - 2), na_el - 1) if (na_el >= 1 and rng.random() < 0.6) else rng.randint(max(0, na_el - 2), na_el)
     occa = [1] * na_el + [0] * (n - na_el)
     occb = [1] * nb_el + [0] * (n - nb_el)
     if rng.random() < 0.1:
@@ -142,6 +142,27 @@ def gen_case(rng, tier, uhf):
         eab = eab + eab.transpose(1, 0, 2, 3)
         eab = eab + eab.transpose(0, 1, 3, 2)
     spec_py, spec_cq, kind = gen_spec(rng, n, True, elements, [i for i in range(n) if occa[i] > 0])
+    a_only = [i for i in range(n) if occa[i] > 0 and occb[i] == 0]
+    b_only = [i for i in range(n) if occb[i] > 0 and occa[i] == 0]
+    if (a_only or b_only) and rng.random() < 0.45:
+        # per-spin lists that reach into the OTHER channel's occupied-only range: the beta list contains an orbital that
+        # is alpha-occupied but beta-virtual (and/or the alpha list one that is beta-occupied but alpha-virtual)
+        la = sorted(rng.sample(range(n), rng.randint(0, min(2, n))))
+        lb = sorted(rng.sample(range(n), rng.randint(0, min(2, n))))
+        if a_only:
+            lb = sorted(set(lb) | {rng.choice(a_only)})
+            if rng.random() < 0.5:
+                la = [x for x in la if x not in a_only]
+        if b_only:
+            la = sorted(set(la) | {rng.choice(b_only)})
+        both_occ = [i for i in range(n) if occa[i] > 0 and occb[i] > 0]
+        if both_occ and rng.random() < 0.7:      # keep some electrons active
+            keep = rng.choice(both_occ)
+            la = [x for x in la if x != keep]
+            lb = [x for x in lb if x != keep]
+        spec_py = [[int(x) for x in la], [int(x) for x in lb]]
+        spec_cq = "(FPair [%s] [%s])" % ("; ".join("(FI (%d)%%Z)" % x for x in la), "; ".join("(FI (%d)%%Z)" % x for x in lb))
+        kind = "pair-cross-spin"
     return {"uhf": True, "n": n, "occa": occa, "occb": occb, "spin": na_el - nb_el, "core": core,
             "ha": ha, "hb": hb, "eaa": eaa, "eab": eab, "ebb": ebb, "sym": sym,
             "spec_py": spec_py, "spec_cq": spec_cq, "kind": kind, "elements": elements}
@@ -181,6 +202,15 @@ def impl_string(c):
         mol = build_molecule(c)
     except (TypeError, ValueError, NotImplementedError) as e:
         return "Err:" + type(e).__name__, None
+    except Exception as e:
+        return "Crash:construct:%s:%s" % (type(e).__name__, str(e)[:120]), None
+    try:
+        return _impl_string_of(c, mol), mol
+    except Exception as e:
+        return "Crash:observe:%s:%s" % (type(e).__name__, str(e)[:120]), mol
+
+
+def _impl_string_of(c, mol):
     core, h1, g1 = mol.get_active_space_integrals()
     terms, bad = CC.show_terms(mol.fermionic_hamiltonian.terms)
     if bad:
@@ -201,7 +231,7 @@ def impl_string(c):
              + " | core=" + CC.show_q(core) + " | ha=" + CC.show_tensor(h1[0]) + " | hb=" + CC.show_tensor(h1[1])
              + " | gaa=" + CC.show_tensor(g1[0]) + " | gab=" + CC.show_tensor(g1[1]) + " | gbb=" + CC.show_tensor(g1[2])
              + " | terms=" + terms)
-    return s, mol
+    return s
 
 
 def model_expr(c):
@@ -270,6 +300,57 @@ def reference_energy_oracle(c, mol):
     return None
 
 
+def partition_oracle(c, mol):
+    """The boolean conditions of C04_partition_is_partition evaluated on the lists the implementation produced
+    (per spin channel for UHF, each against ITS OWN occupation vector)."""
+    chans = []
+    if c["uhf"]:
+        for e, occ in enumerate((c["occa"], c["occb"])):
+            chans.append(("alpha" if e == 0 else "beta", occ, list(mol.active_occupied[e]), list(mol.frozen_occupied[e]),
+                          list(mol.active_virtual[e]), list(mol.frozen_virtual[e]), _spec_list(c, e)))
+    else:
+        chans.append(("restricted", c["occ"], list(mol.active_occupied), list(mol.frozen_occupied), list(mol.active_virtual),
+                      list(mol.frozen_virtual), _spec_list(c, None)))
+    for name, occ, ao, fo, av, fv, want_frozen in chans:
+        n = len(occ)
+        ao, fo, av, fv = ([int(x) for x in l] for l in (ao, fo, av, fv))
+        allo = ao + fo + av + fv
+        if sorted(allo) != list(range(n)):
+            return "%s: the four lists %s %s %s %s are not a partition of range(%d)" % (name, ao, fo, av, fv, n)
+        if any(occ[i] <= 0 for i in ao + fo):
+            return "%s: an orbital listed as occupied has occupation 0 (mo_occ=%s, active_occupied=%s, frozen_occupied=%s)" % (name, occ, ao, fo)
+        if any(occ[i] != 0 for i in av + fv):
+            return "%s: an orbital listed as virtual is occupied (mo_occ=%s, active_virtual=%s, frozen_virtual=%s)" % (name, occ, av, fv)
+        if ao != sorted(ao) or av != sorted(av):
+            return "%s: active lists are not increasing: %s %s" % (name, ao, av)
+        if want_frozen is not None:
+            inside = sorted(set(x for x in want_frozen if 0 <= x < n))
+            if sorted(fo + fv) != inside:
+                return "%s: frozen lists %s + %s do not hold exactly the requested orbitals %s" % (name, fo, fv, inside)
+        if sum(occ[i] for i in ao) + sum(occ[i] for i in fo) != sum(occ):
+            return "%s: active + frozen-occupied electrons differ from the electron count" % name
+    return None
+
+
+def _spec_list(c, e):
+    """the list of orbitals the specification asks to freeze (channel e for UHF), or None when not a plain list/int"""
+    v = c["spec_py"]
+    try:
+        if v is None:
+            return []
+        if isinstance(v, (int, np.integer)) and not isinstance(v, bool):
+            return list(range(int(v)))
+        if isinstance(v, str) and v == "frozen_core":
+            return None
+        if isinstance(v, list):
+            if e is None:
+                return [int(x) for x in v]
+            return [int(x) for x in v[e]]
+    except Exception:
+        return None
+    return None
+
+
 def electron_count_oracle(c, mol):
     if c["uhf"]:
         want = (sum(1 for o in mol.active_mos[0] if c["occa"][o] >= 1), sum(1 for o in mol.active_mos[1] if c["occb"][o] >= 1))
@@ -304,22 +385,42 @@ def run_stub(ck, n_r, n_u):
         exprs.append(model_expr(c))
         ref = "uhf" if c["uhf"] else "rhf"
         nontrivial = False
+        if s.startswith("Crash:"):
+            ck.violation("C04/stub/%s/exception/%s/%s" % (ref, s.split(":")[1] + "-" + s.split(":")[2], c["kind"]),
+                         "the implementation raised an unexpected exception on a generated molecule: %s" % s,
+                         {"kind": "stub", "case": case_json(c)}, found_input=True)
         if mol is not None:
+            try:
+                msg = partition_oracle(c, mol)
+            except Exception as e:
+                msg = "partition lists cannot be inspected: %r" % e
+            if msg and not spec_has_repeat(c):
+                ck.violation("C04/stub/%s/partition/%s" % (ref, c["kind"]), msg, {"kind": "stub", "case": case_json(c)}, found_input=True)
+        if mol is not None and not s.startswith("Crash:"):
             fo = mol.frozen_occupied
             nfo = len(fo[0]) + len(fo[1]) if c["uhf"] else len(fo)
             nontrivial = nfo >= 1 and " | terms=" in s and ";" in s.split(" | terms=")[1]
             rep = spec_has_repeat(c)
             if c["sym"] and not rep:
-                msg = reference_energy_oracle(c, mol)
+                try:
+                    msg = reference_energy_oracle(c, mol)
+                except Exception as e:
+                    msg = "reference determinant energy cannot be evaluated on the implementation's Hamiltonian: %r" % e
                 if msg:
                     ck.violation("C04/stub/%s/reference-energy/%s" % (ref, c["kind"]), msg,
                                  {"kind": "stub", "case": case_json(c)}, found_input=True)
             elif c["sym"] and rep:
-                msg = reference_energy_oracle(c, mol)
+                try:
+                    msg = reference_energy_oracle(c, mol)
+                except Exception as e:
+                    msg = repr(e)
                 ck.notes["repeated_index_specs"] = ck.notes.get("repeated_index_specs", 0) + 1
                 if msg:
                     ck.notes["repeated_index_energy_differs"] = ck.notes.get("repeated_index_energy_differs", 0) + 1
-            msg = electron_count_oracle(c, mol)
+            try:
+                msg = electron_count_oracle(c, mol)
+            except Exception as e:
+                msg = "electron bookkeeping cannot be read: %r" % e
             if msg:
                 ck.violation("C04/stub/%s/electron-count/%s" % (ref, c["kind"]), msg,
                              {"kind": "stub", "case": case_json(c)}, found_input=True)
@@ -327,8 +428,15 @@ def run_stub(ck, n_r, n_u):
                 sample={"case": {k: v for k, v in case_json(c).items() if k in ("uhf", "n", "occ", "occa", "occb", "spec_py", "kind")},
                         "impl": s[:300]},
                 tags=[ref, "spec:" + c["kind"], "ok" if mol is not None else s, "sym" if c["sym"] else "asym"])
-    model = ck.coq_eval("stub", PREAMBLE, exprs, shard=12)
+    try:
+        model = ck.coq_eval("stub", PREAMBLE, exprs, shard=12)
+    except Exception as e:
+        ck.violation("C04/correspondence/model-evaluation", "the Coq model could not be evaluated: %s" % str(e)[-600:],
+                     {"kind": "model-eval"}, found_input=False)
+        return
     for c, a, b in zip(cases, impl, model):
+        if a.startswith("Crash:"):
+            continue            # already reported with its case
         if a != b:
             part = next((k for k, (x, y) in enumerate(zip(a.split(" | "), b.split(" | "))) if x != y), -1)
             what = ["partition-bookkeeping", "core", "one-body", "two-body", "terms"]
@@ -540,28 +648,35 @@ def run(ck):
                       "partition theorem assumes a specification without a repeated index (repeated indices are accepted by the code: Example C04_duplicate_index_not_rejected)",
                       "folding theorems assume the electron-exchange symmetry g[p,q,r,s] = g[q,p,s,r] of the two-body tensor (holds for any integrals of a two-body operator)",
                       "PySCF SCF / AO->MO transformation / FCI and the eigen-solver are external: FCI equality and rotation invariance are numerical support only"]
+    fallback = False
     try:
         t = chem_tables.extract(REPO)
-        ck.write_gen("ChemTables", chem_tables.emit(t))
     except TranslateError as e:
         ck.violation("C04/translator/chem_tables", "translator no longer recognises the source: %s" % e,
                      {"kind": "translator", "error": str(e)}, found_input=False)
-        t = None
-    if t is not None:
+        t, fallback = chem_tables.FALLBACK, True
+    ck.notes["tables"] = "FALLBACK last-known-good constants (translator failed; reported)" if fallback else "regenerated from /repo"
+    ck.write_gen("ChemTables", chem_tables.emit(t))
+    try:
         res = ck.prove()
         if not res.ok:
-            ck.proof_violation(res)
+            ck.proof_violation(res, "(against FALLBACK tables)" if fallback else "")
+    except Exception as e:
+        ck.violation("C04/proof/build", "the proof step could not be run: %s" % str(e)[-600:], {"kind": "proof"}, found_input=False)
     try:
         import tangelo.toolboxes.molecular_computation.molecule  # noqa
     except Exception as e:
         ck.violation("C04/import", "tangelo cannot be imported: %r" % e, {"kind": "import"}, found_input=False)
         return
-    if t is None:
-        # the model cannot be evaluated without the generated tables: still run the oracle on the implementation
-        ck.write_gen("ChemTables", "Definition core_orbitals : list (String.string * nat) := nil.\n")
-    n_r, n_u = (240, 140) if ck.tier == "quick" else (2000, 1000)
-    run_stub(ck, n_r, n_u)
-    run_pyscf_support(ck)
+    n_r, n_u = (240, 160) if ck.tier == "quick" else (2000, 1200)
+    import traceback
+    for name, fn in (("stub-molecules", lambda: run_stub(ck, n_r, n_u)), ("pyscf-support", lambda: run_pyscf_support(ck))):
+        try:
+            fn()
+        except Exception:
+            tb = traceback.format_exc()
+            ck.violation("C04/stream/%s/aborted" % name, "stream %s stopped early: %s" % (name, tb.splitlines()[-1]),
+                         {"kind": "stream-abort", "traceback": tb}, found_input=False)
     ck.notes["theorem_status"] = {"full": ["C04_partition_is_partition", "C04_partition_is_partition_uhf", "C04_int_spec_valid",
                                            "C04_frozen_lists_sorted", "C04_convert_errors", "C04_freeze_no_half_filled",
                                            "C04_n_active_electrons", "C04_n_active_ab_correct", "C04_fold_restricted_energy",
@@ -581,12 +696,15 @@ def replay(data):
         print("implementation:", s[:2000])
         if "model" in r:
             print("model:         ", r["model"][:2000])
-        bad = 0
+        bad = 1 if s.startswith("Crash:") else 0
         if mol is not None:
-            for f in (reference_energy_oracle, electron_count_oracle):
+            for f in (partition_oracle, reference_energy_oracle, electron_count_oracle):
                 if f is reference_energy_oracle and not c["sym"]:
                     continue
-                m = f(c, mol)
+                try:
+                    m = f(c, mol)
+                except Exception as e:
+                    m = "%s raised %r" % (f.__name__, e)
                 if m:
                     print("ORACLE:", m)
                     bad = 1
